@@ -153,7 +153,7 @@ func c15build(k c15case) (*vE2ESpec, *int64) {
 			}
 		}
 	}
-	if k.cmd.kind != "app" && per >= 2 && k.tg.name != "201-ranges" && k.stall == 0 && k.failNth == 0 {
+	if k.cmd.kind != "app" && per >= 2 && k.tg.name != "201-ranges" && k.tg.name != "400-ranges" && k.stall == 0 && k.failNth == 0 {
 		frame := c15reply(k.cmd, false)
 		sc.Net = func(r *vE2ERun) {
 			// the sender is asleep in the limiter between the probes at 0 and at per
@@ -221,7 +221,7 @@ func c15check(k c15case, run *vE2ERun, x *vs.Exec, injT int64) (class, msg strin
 	}
 	// one limiter per engine run (per chunk of <= 200 port ranges), shared by all workers
 	wantLim := 1
-	if k.tg.name == "201-ranges" && k.cmd.kind != "app" {
+	if (k.tg.name == "201-ranges" || k.tg.name == "400-ranges") && k.cmd.kind != "app" {
 		wantLim = 2
 	}
 	if run.W.Limiters != wantLim {
@@ -263,6 +263,9 @@ func verifC15(c *drv.Ctx) {
 	}
 	portless := []c15target{{"16", "10.0.1.0/28", "", 16}, {"32", "10.0.1.0/27", "", 32}}
 	chunked := c15target{"201-ranges", "10.0.1.1/32", p201, 201}
+	// two FULL chunks: were the chunks ever run side by side, two limiters would pace two senders at once
+	p400, _ := c03manyPorts(400)
+	chunked400 := c15target{"400-ranges", "10.0.1.1/32", p400, 400}
 	c.R.Rule = "every scan command (12) x every rate spelling of the table (N, N/s, N/<k>ms|s|m; N in 1..1000(65535), windows 1 ms..1 min(1 h)) x probe counts {16, 32|40} (+ a 201-range port list = 2 chunks, 2 limiters), application scans x workers {1, 2, 3, 100}; plus, per packet command, a run in which one write fails (the rest must still be charged and spaced), and, per command, 3 rates with N > 10 where the first probe stalls for 1.5 windows (60/64 probes follow: the idle limiter may release only its fixed allowance at once); " +
 		"one run of the real command per case on the virtual clock with the real uber limiter; a reply-shaped frame is injected while the sender sleeps in the limiter. Oracle: any k consecutive departures span >= (k-1-10)*floor(W/N); #limiter calls = #probes per thread; " +
 		"one limiter per engine run; the injected frame is read at the instant of injection and reported. Then a schedule exploration (deviation bound 1, thorough 2 on the smaller one) of two application scans (2 and 3 workers) under the same oracle. non-trivial = more than 11 probes (the bound says nothing below that)"
@@ -346,6 +349,9 @@ func verifC15(c *drv.Ctx) {
 			for _, rt := range []c15rate{{"100/s", 100, time.Second}, {"1000/7s", 1000, 7 * time.Second}} {
 				runCase(c15case{cmd: cmd, tg: chunked, rate: rt, delay: ""})
 				runCase(c15case{cmd: cmd, tg: chunked, rate: rt, delay: "0s"})
+			}
+			if cmd.kind != "app" {
+				runCase(c15case{cmd: cmd, tg: chunked400, rate: c15rate{"100/s", 100, time.Second}, delay: "0s"})
 			}
 		}
 	}
